@@ -1065,8 +1065,11 @@ def run_merge(ctx):
     for items, tag in directed_scenarios():
         one(items, tag, merge_orders(len(items), rng, 24))
     # (b2) boundary sizes of the nuclide set (zero / one nuclide with group structure and metadata), every order
-    for k, (items, tag) in enumerate(boundary_scenarios(rng, n_random=ctx.pick(1, 3))):
-        one(items, tag, merge_orders(len(items), rng, ctx.pick(6, 12)))
+    bscen = boundary_scenarios(rng, n_random=ctx.pick(1, 3))
+    if not ctx.thorough:   # quick: every (kind, size) pair stays represented; the full grid runs in the thorough tier
+        bscen = rng.sample(bscen[:150], 75) + bscen[150:]
+    for k, (items, tag) in enumerate(bscen):
+        one(items, tag, merge_orders(len(items), rng, ctx.pick(4, 12)))
         ctx.count("boundary-size scenario: " + tag.split("-")[1])
     # (c) generated scenarios, every order
     ns = ctx.pick(120, 2000)
